@@ -26,7 +26,7 @@ Min(a, b) == IF a <= b THEN a ELSE b
 (* ---- per request, what the client did ---------------------------------- *)
 NoReq == [known |-> FALSE, idx |-> 0, method |-> "", ver |-> "", wantclose |-> FALSE,
           bad |-> FALSE, total |-> 0, kind |-> "", stream |-> 0,
-          head |-> FALSE, body |-> 0, done |-> FALSE, headAt |-> -1,
+          head |-> FALSE, body |-> 0, done |-> FALSE, headAt |-> -1, begun |-> FALSE,
           rst |-> FALSE, c |-> [toks |-> <<>>, headers |-> <<>>]]
 
 (* ---- per application instance ------------------------------------------- *)
@@ -66,7 +66,7 @@ ApplyProgress(reqs, ps) ==
     ELSE LET p == Head(ps)
              r == Get(reqs, p.app, NoReq)
          IN ApplyProgress(Put(reqs, p.app, [r EXCEPT !.head = p.head, !.body = p.body,
-                                                     !.done = p.done]), Tail(ps))
+                                                     !.done = p.done, !.begun = p.begun]), Tail(ps))
 
 OStepApp(o, ev) ==
     LET a == ev.app
@@ -222,7 +222,7 @@ BusyReq(o, a) == LET r == Req(o, a) IN r.known /\ r.head /\ ~r.bad /\ Wire(o, a)
 Busy(o) == \E a \in DOMAIN o.reqs : BusyReq(o, a)
 
 (* HTTP/1: a pipelined request whose head has arrived but which has not been served *)
-ParkedPipeline(o) == \E a \in DOMAIN o.reqs : Req(o, a).head /\ Req(o, a).idx > 1 /\ App(o, a).started = 0
+ParkedPipeline(o) == \E a \in DOMAIN o.reqs : Req(o, a).begun /\ Req(o, a).idx > 1 /\ App(o, a).started = 0
                                                 /\ Req(o, a).ver # "2"
 
 (* an application that will never drain its queue: it ended (or is ending) with request messages unread *)
